@@ -31,12 +31,12 @@ type c15Handler struct {
 }
 
 type c15Case struct {
-	Cause    string       `json:"cause"` // closer | fin | rst | server_ctx
-	Handlers []c15Handler `json:"handlers"`
-	Empty    bool         `json:"empty,omitempty"`   // the peer sent an empty data frame some time before the connection ends
-	Partial  bool         `json:"partial,omitempty"` // the peer has sent the first fragment of a message and never completes it
-	LateCancel bool       `json:"late_cancel,omitempty"` // the peer sent xrpc.cancel for ids the server is not handling (a cancel that arrives after its call was answered)
-	Stall    bool         `json:"stall,omitempty"`   // the link stops moving data while a large response is being written (server pings every 40 ms)
+	Cause      string       `json:"cause"` // closer | fin | rst | server_ctx
+	Handlers   []c15Handler `json:"handlers"`
+	Empty      bool         `json:"empty,omitempty"`       // the peer sent an empty data frame some time before the connection ends
+	Partial    bool         `json:"partial,omitempty"`     // the peer has sent the first fragment of a message and never completes it
+	LateCancel bool         `json:"late_cancel,omitempty"` // the peer sent xrpc.cancel for ids the server is not handling (a cancel that arrives after its call was answered)
+	Stall      bool         `json:"stall,omitempty"`       // the link stops moving data while a large response is being written (server pings every 40 ms)
 }
 
 var labelRe = regexp.MustCompile(`(?m)^(\d+) @.*\n# labels: (\{.*\})`)
